@@ -26,8 +26,8 @@ WHY = "writers take all slots in one global order (bits first, then drain) so tw
 def loop_bound(fn, header):
     t = fn.term(header) or {}
     c = strip_casts(t.get("cond"))
-    if isinstance(c, dict) and c.get("k") == "bin" and c.get("op") == "<":
-        return strip_casts(c.get("l")), strip_casts(c.get("r"))
+    if isinstance(c, dict) and c.get("k") == "bin" and c.get("op") in ("<", "!="):
+        return strip_casts(c.get("l")), strip_casts(fn.expand_expr(c.get("r"), use_block=header))
     return None, None
 
 
